@@ -63,7 +63,7 @@ class Reporter:
                 return False
         n = sum(1 for v in self.violations if v['signature'] == signature)
         path = None
-        if n < 2:
+        if n < 2 and not os.environ.get('VERIF_NO_EVIDENCE'):
             os.makedirs(REPLAY_DIR, exist_ok=True)
             h = hashlib.sha1(json.dumps(replay, sort_keys=True, default=str).encode()).hexdigest()[:12]
             path = os.path.join(REPLAY_DIR, '%s-%s.json' % (self.pid, h))
@@ -85,8 +85,9 @@ class Reporter:
         coverage['known_findings_reproduced'] = self.known
         ev = dict(property_id=self.pid, tier=self.tier, seed=seed(), level=level, coverage=coverage,
                   assumptions=assumptions, wall_s=round(wall, 2), violations=len(self.violations))
-        with open(os.path.join(EVIDENCE_DIR, '%s.json' % self.pid), 'w') as f:
-            json.dump(ev, f, indent=1, default=str)
+        if not os.environ.get('VERIF_NO_EVIDENCE'):      # set by tools/mutate.py (runs against scratch mutants)
+            with open(os.path.join(EVIDENCE_DIR, '%s.json' % self.pid), 'w') as f:
+                json.dump(ev, f, indent=1, default=str)
         for f in self.findings:
             if f['id'] in self.known:
                 print('KNOWN-FINDING: property=%s %s (%d cases)' % (self.pid, f['what'], self.known[f['id']]))
